@@ -97,12 +97,18 @@ def histories(draw):
             max_size=10,
         )
     )
+    hash_method = draw(st.sampled_from(["a", "a", "a", "b"]))
+    if hash_method == "b" and draw(st.booleans()):
+        # many labels of one size: the label permutations that the
+        # relabelling-invariant fingerprint is meant to recognise exist
+        d0 = draw(st.integers(2, 4))
+        net = dict(net, sizes={ix: d0 for ix in net["sizes"]})
     return {
         "net": net,
         "kind": kind,
         "directory": draw(st.booleans()),
         "directory_split": draw(st.sampled_from(["auto", True, False])),
-        "hash_method": draw(st.sampled_from(["a", "a", "a", "b"])),
+        "hash_method": hash_method,
         "minimize": draw(st.sampled_from(["flops", "size", "combo"])),
         "slicing": draw(st.booleans()),
         "max_repeats": draw(st.integers(1, 3)),
